@@ -36,7 +36,8 @@ class Spec:
 
     def run_case(self, case, tier):
         r = Runner(case, self.checks, tag="c11")
-        r.execset_prop = "C11"
+        r.execset_prop = "C11"        # a rebuild that must happen (file removed by the user) but does not
+        r.execset_extra_prop = "C02"  # extra executions of other targets are C02's subject
         return r.run()
 
 
